@@ -78,6 +78,37 @@ class C10(XsProp):
             steps = ['xs limits 4000 - -'] + ['eval %s' % hexsrc(g) for g in goods] + \
                     ['clone', 'clone', 'use 2', 'compile %s' % hexsrc(bad), 'use 0', 'eval %s' % hexsrc(bad), 'out', pr, 'dump', 'use 1', pr, 'dump']
             cs.append(' | '.join(steps))
+        # the rejected source redefines a word / variable that an earlier source defined - the newest dictionary entry or an older one
+        # (family added after round 11: a dictionary entry overwritten in place is below the unwinding mark)
+        redef = [(': sq dup * ;', ': sq 1 ;', '3 sq'), ('7 var keep', '20 var keep', 'keep'), (': twice dup + ; 1 var cnt', '5 var cnt', 'cnt'),
+                 (': twice dup + ;', ': twice 0 ;', '4 twice'), (': lf 1 ;', ': lf 2 3', 'lf'), (': sq dup * ;', ': sq #( 1 0 / #) ;', '5 sq'),
+                 ('1 var cnt', ': cnt 9 ;', 'cnt'), (': sq dup * ;', '3 var sq', '2 sq')]
+        for good, re_, probe in redef:
+            for between in ([], [': other 0 ;'], ['1 2']):
+                for failtok in rng.sample(['zzz', '1 if', ']', '#( foo #)', '0x', ';'], 3 if tier == 'quick' else 6):
+                    bad = re_ if (re_.endswith('2 3') or '#(' in re_) else re_ + ' ' + failtok
+                    pr = ' | '.join('eval %s | stack | out' % hexsrc(p_) for p_ in [probe, 'depth', probe])
+                    steps = ['xs limits 4000 - -', 'eval %s' % hexsrc(good)] + ['eval %s' % hexsrc(b_) for b_ in between] + \
+                            ['clone', 'clone', 'use 2', 'compile %s' % hexsrc(bad), 'use 0', '%s %s' % (rng.choice(['eval', 'compile']), hexsrc(bad)),
+                             'out', pr, 'dump', 'use 1', pr, 'dump']
+                    cs.append(' | '.join(steps))
+        # recorded finding D40: a file named by `require` in a rejected source stays registered as read (file access: implementation only)
+        import os
+        from . import lib
+        scratch = os.path.join(lib.HARNESS, 'target', 'scratch')
+        os.makedirs(scratch, exist_ok=True)
+        libpath = os.path.join(scratch, 'c10_lib.xeh')
+        with open(libpath, 'w', encoding='utf-8', newline='') as fh:
+            fh.write(': libw 42 ;\n')
+        req = 'require "%s"' % libpath
+        filew = [([], req + ' junk', [req + ' libw']), (['1 2'], req + ' libw if', [req, 'libw']), ([], '#( ' + req + ' #) junk', [req + ' libw'])]
+        # `include` reads the file again whatever happened before: must pass
+        filew += [([], 'include "%s" junk' % libpath, ['include "%s" libw' % libpath])]
+        for goods, bad, probes in filew:
+            pr = ' | '.join('eval %s | stack | out' % hexsrc(p) for p in probes)
+            steps = ['xp limits 4000 - -'] + ['eval %s' % hexsrc(g) for g in goods] + \
+                    ['clone', 'clone', 'use 2', 'compile %s' % hexsrc(bad), 'use 0', 'eval %s' % hexsrc(bad), 'out', pr, 'dump', 'use 1', pr, 'dump']
+            cs.append(' | '.join(steps))
         # recorded findings D30-D32 (witnesses; each must keep failing the way it is recorded)
         for goods, bad, probes in self.WITNESS:
             pr = ' | '.join('eval %s | stack | out' % hexsrc(p) for p in probes)
@@ -97,6 +128,10 @@ class C10(XsProp):
            'source and keeps pointing into the removed code (witness: `late foo : bar foo ;`, rejected `: foo 2 ; #( bar #) junk`, then '
            '`: foo 1 ; bar` fails)')
 
+    D40 = ('a rejected source that names a file with `require`: the file stays registered as read although its definitions were removed '
+           'with the rest of the source, so a later `require` of the same file does nothing (witness: a file holding `: libw 42 ;`, the '
+           'rejected source `require "F" junk`, then `require "F" libw` fails with an unknown word)')
+
     def known(self, text, impl, spec):
         m = re.search(r'history: (.*)', text)
         if not m:
@@ -107,6 +142,8 @@ class C10(XsProp):
             return None
         goods, bad = ' \n '.join(srcs[:k]), srcs[k]
         btoks = bad.split()
+        if re.search(r'\brequire\s+"', bad):
+            return self.D40
         for w in re.findall(r':\s+(\S+)\s+immediate\b', goods):
             if w in btoks:
                 return self.D30
